@@ -240,7 +240,129 @@ def c01(ctx):
     ctx.extra["exhaustive_note"] = "thorough tier enumerates the complete permutation space of all five runs"
 
 
+# ---------------------------------------------------------------- C02
+
+C02_RUNS = [
+    # label, config, mode, command builder
+    ("server", "testing/reference-impls-config.yaml", "server", lambda b: ["--", b["referenceserver"]]),
+    ("client", "testing/reference-impls-config.yaml", "client", lambda b: ["--", b["referenceclient"]]),
+    ("both", "testing/reference-impls-config.yaml", "both", lambda b: ["--", b["referenceclient"], "----", b["referenceserver"]]),
+    ("grpcserver", "testing/grpc-impls-config.yaml", "server", lambda b: ["--", b["grpcserver"]]),
+    ("grpcserver-web", "testing/grpc-web-server-impl-config.yaml", "server", lambda b: ["--", b["grpcserver"]]),
+    ("grpcclient", "testing/grpc-impls-config.yaml", "client", lambda b: ["--", b["grpcclient"]]),
+]
+
+
+def _c02_failure_class(name, detail, shapes):
+    import re as _re
+    simple = "/".join(name.split("/")[-2:])
+    shape = shapes.get(simple, "?")
+    first = (detail.split("\n")[0] if detail else "")
+    first = _re.sub(r'"[^"]*"', '"…"', first)
+    first = _re.sub(r"\d+", "N", first)[:70]
+    marker = "grpc-client" if "(grpc client impl)" in name else ("grpc-server" if "(grpc server impl)" in name else "ref")
+    proto = "?"
+    m = _re.search(r"Protocol:PROTOCOL_(\w+)", name)
+    if m:
+        proto = m.group(1).lower()
+    return "%s/%s/%s/%s" % (shape, marker, proto, first)
+
+
+def c02(ctx):
+    import e2e, os, json, subprocess, concurrent.futures as cf
+    ctx.gotest("cc", "^TestVerifC02Loader$", race=False, timeout=2400)
+    bins = e2e.build_all(ctx, race=False)
+    if not bins:
+        return
+    gdir = os.path.join(ctx.W, "c02")
+    os.makedirs(gdir)
+    ncases = 40 if ctx.tier == "quick" else 600
+    binp = ctx.build_test("internal/app/connectconformance", False, "cc")
+    env = dict(ctx.env, VERIF_C02_DIR=gdir, VERIF_C02_CASES=str(ncases), VERIF_C02_PER_FILE="20")
+    p = subprocess.run([binp, "-test.run", "^TestVerifC02Generate$"], cwd=os.path.join(e2e.REPO, "internal/app/connectconformance"), env=env, stdout=subprocess.PIPE, stderr=subprocess.STDOUT)
+    files = sorted(f for f in os.listdir(gdir) if f.endswith(".yaml"))
+    if p.returncode != 0 or not files:
+        ctx.inconclusive.append("C02 generator failed: " + p.stdout.decode(errors="replace")[-1500:])
+        return
+    shapes = dict(l.rstrip("\n").split("\t") for l in open(os.path.join(gdir, "shapes.tsv")) if l.strip())
+    stats = {"generated_cases": len(shapes), "suite_files": len(files), "runs": {}}
+    ctx.extra["c02"] = stats
+    ctx.extra["rule"] = "seeded generator of well-formed cases in the deterministic fragment (5 stream types, 0-4 requests and responses incl. more/fewer responses than requests, payloads empty/1 byte/all 256 values/4 KB, 0-3 mixed-case multi-valued and -bin headers and trailers, errors with any code, hostile messages and 0-3 details) x every permutation of the shipped reference and gRPC configs, modes server, client, both, grpcserver (gRPC and gRPC-Web config) and grpcclient; distinct = permutations that passed"
+    jobs = []
+    for f in files:
+        for (label, conf, mode, cmd) in C02_RUNS:
+            jobs.append((f, label, conf, mode, cmd))
+
+    def one(job):
+        f, label, conf, mode, cmd = job
+        args = ["--conf", os.path.join(e2e.REPO, conf), "--mode", mode, "--test-file", os.path.join(gdir, f)] + cmd(bins)
+        rc, to, text = e2e.run_runner(ctx, bins, args, "c02-%s-%s" % (label, f), timeout=1800)
+        return job, rc, to, text, args
+
+    failures = {}   # class -> list of (file, label, name, detail, args)
+    with cf.ThreadPoolExecutor(3) as ex:
+        for job, rc, to, text, args in ex.map(one, jobs):
+            f, label, conf, mode, cmd = job
+            out = e2e.parse_output(text)
+            st = stats["runs"].setdefault(label, {"cases": 0, "passed": 0, "failed": 0, "invocations": 0, "hung": 0})
+            st["invocations"] += 1
+            if "no test cases apply" in text and out["total"] is None:
+                continue
+            if out["total"] is None:
+                if "panic:" in text or "goroutine " in text:
+                    import re as _re
+                    m = _re.search(r"connectrpc\.com/conformance/(\S+?)\(", text[text.find("panic:"):])
+                    site = m.group(1) if m else "unknown"
+                    ctx.add_violation("c02/runner-crash/" + site, "the runner crashed on a generated suite (%s, %s)" % (f, label), {"suite": open(os.path.join(gdir, f)).read()[:20000], "argv": " ".join(args), "tail": text[-3000:]})
+                elif "failed to" in text or "error" in text.lower():
+                    ctx.add_violation("c02/suite-rejected/" + label, "a well-formed generated suite was rejected by the runner: " + text.strip()[-300:], {"suite": open(os.path.join(gdir, f)).read()[:20000], "argv": " ".join(args), "tail": text[-2000:]})
+                else:
+                    ctx.inconclusive.append("C02 run %s %s printed no summary: %s" % (label, f, text[-500:]))
+                continue
+            st["cases"] += out["total"]
+            st["passed"] += out["passed"] or 0
+            st["failed"] += out["nfailed"] or 0
+            hung = "timed out waiting for result" in text
+            st["hung"] += 1 if hung else 0
+            for name, detail in out["failed"].items():
+                failures.setdefault(_c02_failure_class(name, detail, shapes), []).append((f, label, conf, mode, name, detail, hung))
+            if out["could_not_run"]:
+                failures.setdefault("could-not-run/" + label, []).append((f, label, conf, mode, "(%d cases)" % out["could_not_run"], text[-800:], hung))
+    # triage: re-run one representative per class alone (isolates hang cascades and load flakes), then report
+    for cls, items in sorted(failures.items()):
+        f, label, conf, mode, name, detail, hung = items[0]
+        cmd = [c for c in C02_RUNS if c[0] == label][0][3]
+        confirmed = None
+        if not name.startswith("("):
+            fails = 0
+            for attempt in range(2):
+                args = ["--conf", os.path.join(e2e.REPO, conf), "--mode", mode, "--test-file", os.path.join(gdir, f), "--run", name, "--max-servers", "1"] + cmd(bins)
+                rc, to, text = e2e.run_runner(ctx, bins, args, "c02-rerun", timeout=300)
+                o2 = e2e.parse_output(text)
+                if rc != 0 or o2["failed"] or o2["total"] is None:
+                    fails += 1
+            confirmed = fails == 2
+        if confirmed is False:
+            stats.setdefault("flaky_reruns", []).append({"class": cls, "name": name})
+            continue
+        suite = json.load(open(os.path.join(gdir, f)))
+        simple = "/".join(name.split("/")[-2:])
+        case = [tc for tc in suite.get("testCases", []) if tc.get("request", {}).get("testName") == simple]
+        ctx.add_violation("c02/" + cls, "generated case %r fails deterministically as %r (%d permutations in this class): %s" % (simple, name, len(items), detail[:400]),
+                          {"permutation": name, "run": label, "failing_permutations_in_class": len(items), "error": detail[:3000], "test_case": case[:1], "suite_file": f})
+    total = sum(v["cases"] for v in stats["runs"].values())
+    ctx.extra["evaluations"] = ctx.extra.get("evaluations", 0) + total
+    ctx.extra["distinct_nontrivial"] = ctx.extra.get("distinct_nontrivial", 0) + sum(v["passed"] for v in stats["runs"].values())
+    ctx.extra["samples"] = [{"generated_case": json.load(open(os.path.join(gdir, files[0])))["testCases"][0], "expanded_to": "every permutation of the shipped configs in 6 run set-ups"}]
+    ctx.extra["not_exhaustive"] = True
+
+
 SPECS = {
+    "C02": {"fn": c02, "level": "exploration",
+            "technique": "runtime monitoring end to end: seeded generator of well-formed test cases run through the real runner against the real reference and gRPC peers in every mode; the runner's per-permutation verdict and peer feedback are the observation; in-process crash monitor (recover + input on disk) for suite loading",
+            "text": "Generated cases (deterministic fragment of the schema) are expanded by the real runner over the full shipped matrix and executed against the reference server, the reference client, both as external processes, and the grpc-go peers; any FAILED line, feedback or crash is a disagreement between the derived expectation and the peers; each failure class is re-run alone twice before it counts. 10^4-10^5 arbitrary parseable suites are fed to parseTestSuites/newTestCaseLibrary and must yield an error or a library, never a panic.",
+            "note": "Excluded from the fragment (protocol limits): header values with leading/trailing whitespace or non-visible bytes, error messages with leading/trailing space, two Header entries with the same name, details of unknown types. Zero-request client/bidi streams run in suite files of their own because grpc-go never delivers EOF for them (known third-party finding).",
+            "assumptions": ["the runner's per-case verdict (subject of C03/C04)"]},
     "C01": {"fn": c01, "level": "exploration",
             "technique": "runtime monitoring of the real binaries end to end (also race-built): the runner's printed verdicts, totals and expected-failure lines are checked by an offline oracle against the permutation set computed by independent models; failing permutations are re-run in isolation before being called deviations",
             "text": "The five `make runconformance` invocations are executed with binaries built from the tree; the oracle requires zero unexpected failures, an expected-failure set exactly equal to what the shipped known-failing lists match, totals that add up, and a case count equal to the number of permutations the independent config/suite/filter models derive from the same YAML. Quick covers everything except the two message-size suites on the full matrix (those run on HTTP/2 x {identity, gzip} x cleartext) plus a race-built pass; thorough enumerates the whole space and adds race-built runs with --max-servers 1 and 8.",
